@@ -477,7 +477,7 @@ func emuRun[T emulated.FieldParams](b *EmuBeh, pname string, native ecc.ID, full
 			sat := false
 			for _, v := range vals {
 				for sel := 0; sel < 4; sel++ {
-					if st, _, _ := emuOracle(b.Prog, v.a, v.b, sel, q); st != 1 {
+					if st, _, _ := emuOracle(b.Prog, v.a, v.b, sel, q); st == 0 {
 						sat = true
 					}
 				}
